@@ -18,7 +18,7 @@ func (e *Engine) newProof(fn *ssa.Function) *Proof {
 	}
 	p := &Proof{eng: e, fn: fn, fname: name, notes: map[string]bool{}, unmodelled: map[string]bool{}, inlined: map[string]bool{},
 		assumedLib: map[string]bool{}, initHeap: map[string]*Term{}, params: map[string]Value{}, specApps: map[string]bool{},
-		strSeen: map[int]bool{}, specSeen: map[int]bool{}, typeInvSeen: map[int]bool{}}
+		strSeen: map[int]bool{}, specSeen: map[int]bool{}, typeInvSeen: map[int]bool{}, nonNilElems: map[int]bool{}}
 	p.privateBytes = e.privateNext
 	return p
 }
@@ -253,6 +253,15 @@ func (e *Engine) ProveFunction(fn *ssa.Function) (res *ProofResult) {
 	vo.Pos = pos
 	p.obligations = append(p.obligations, vo)
 
+	if c != nil && c.RecoversFirst {
+		ok, why := recoversFirst(fn)
+		g := False()
+		if ok {
+			g = True()
+		}
+		o := p.oblige(p.fname+"/recovers-first", "structure", fn.Pos(), True(), g, "the first action of the function is to defer a closure that calls recover(): "+why)
+		_ = o
+	}
 	out, results := p.run(fr, args, st)
 	if out != nil && c != nil {
 		env := fr.env(out, false)
@@ -493,4 +502,46 @@ func (e *Engine) ProveLemma(l *LemmaDecl) *ProofResult {
 	res.Obligations = p.obligations
 	res.Errors = p.errs
 	return res
+}
+
+// recoversFirst: structural check that no call precedes `defer func() { ... recover() ... }()`.
+func recoversFirst(fn *ssa.Function) (bool, string) {
+	if len(fn.Blocks) == 0 {
+		return false, "no body"
+	}
+	for _, in := range fn.Blocks[0].Instrs {
+		switch x := in.(type) {
+		case *ssa.Alloc, *ssa.Store, *ssa.DebugRef, *ssa.MakeClosure, *ssa.UnOp, *ssa.FieldAddr:
+			continue
+		case *ssa.Call:
+			if b, ok := x.Call.Value.(*ssa.Builtin); ok && b.Name() == "ssa:deferstack" {
+				continue
+			}
+			return false, "a call precedes the deferred recover: " + x.String()
+		case *ssa.Defer:
+			var target *ssa.Function
+			switch v := x.Call.Value.(type) {
+			case *ssa.MakeClosure:
+				target = v.Fn.(*ssa.Function)
+			case *ssa.Function:
+				target = v
+			}
+			if target == nil {
+				return false, "first defer is not a function literal"
+			}
+			for _, b := range target.Blocks {
+				for _, i2 := range b.Instrs {
+					if c, ok := i2.(*ssa.Call); ok {
+						if bi, ok := c.Call.Value.(*ssa.Builtin); ok && bi.Name() == "recover" {
+							return true, "ok"
+						}
+					}
+				}
+			}
+			return false, "first deferred function does not call recover()"
+		default:
+			return false, "unexpected instruction before the deferred recover: " + in.String()
+		}
+	}
+	return false, "no defer in the entry block"
 }
